@@ -76,6 +76,30 @@ def compare_case(m, i):
                             model=' '.join(mi['toks'][max(0, j - 6):j + 12]), impl=' '.join(ii[max(0, j - 6):j + 12]))
     return None
 
+
+def compare_stage_a(m, i):
+    """stage A (attribute macro) and the stripped item; returns a list of disagreement dicts"""
+    out = []
+    if i.get('stageA') is None or m.get('stageA') is None:
+        return out
+    ms, mv = m['stageA']
+    is_, iv = i['stageA']
+    if ms != is_:
+        out.append(dict(kind='stageA', what='status', model=ms + ':' + (mv if isinstance(mv, str) else ''), impl=is_ + ':' + (iv if isinstance(iv, str) else '')))
+    elif ms == 'OK' and mv != iv:
+        j = 0
+        while j < min(len(mv), len(iv)) and mv[j] == iv[j]:
+            j += 1
+        out.append(dict(kind='stageA', what='tokens', at=j, model=' '.join(mv[max(0, j - 6):j + 10]), impl=' '.join(iv[max(0, j - 6):j + 10])))
+    if m.get('strip') is not None and i.get('strip') is not None and m['strip'] != i['strip']:
+        mv, iv = m['strip'], i['strip']
+        j = 0
+        while j < min(len(mv), len(iv)) and mv[j] == iv[j]:
+            j += 1
+        out.append(dict(kind='strip', what='tokens', at=j, model=' '.join(mv[max(0, j - 6):j + 10]), impl=' '.join(iv[max(0, j - 6):j + 10])))
+    return out
+
+
 if __name__ == '__main__':
     cfgs = sys.argv[1].split(',') if len(sys.argv) > 1 else ['default']
     cases = corpus.quick_corpus(1)
@@ -94,6 +118,9 @@ if __name__ == '__main__':
         st = {}
         for cid, it in cases:
             d = compare_case(mres[c][cid], ires[c][cid])
+            if d is None:
+                sa = compare_stage_a(mres[c][cid], ires[c][cid])
+                d = sa[0] if sa else None
             s = ires[c][cid]['status']
             st[s] = st.get(s, 0) + 1
             if d:
